@@ -90,19 +90,25 @@ def main():
     if "-j" in sys.argv:
         jobs = int(sys.argv[sys.argv.index("-j") + 1])
     bad = 0
+    results = {"mutants": [], "benign": []}
     if what in ("mutants", "all"):
         with cf.ThreadPoolExecutor(jobs) as ex:
             for r in ex.map(run_mutant, corpus.MUTANTS):
                 print("MUTANT", *[str(x)[:110] for x in r], flush=True)
+                results["mutants"].append(dict(zip(("status", "property", "rule", "note", "key"), r)))
                 if r[0] not in ("CAUGHT",):
                     bad += 1
     if what in ("benign", "all"):
         with cf.ThreadPoolExecutor(max(1, jobs // 2)) as ex:
             for r in ex.map(run_benign, corpus.BENIGN):
                 print("BENIGN", *[str(x)[:200] for x in r], flush=True)
+                results["benign"].append(dict(zip(("status", "note", "detail"), r)))
                 if r[0] != "SILENT":
                     bad += 1
     print(f"selftest: {bad} problem(s)")
+    if what == "all":
+        import json
+        json.dump(results, open(os.path.join(HERE, "RESULTS.json"), "w"), indent=1, ensure_ascii=False)
     return 1 if bad else 0
 
 
